@@ -172,6 +172,28 @@ func (c *Check) Explore(sc vrt.Scenario, bound int, maxExecs int, prune bool) *v
 	return st
 }
 
+// ExploreOne runs only the default schedule of a scenario (worker 0 does it).
+func (c *Check) ExploreOne(sc vrt.Scenario) {
+	if c.Worker != 0 {
+		return
+	}
+	st, fs := vrt.Explore(sc, vrt.Opts{Bound: 0, OnlyDefault: true, Worker: 0, NWorkers: 1, Recheck: 2})
+	c.mu.Lock()
+	defer c.mu.Unlock()
+	c.P.Stats = append(c.P.Stats, st)
+	if c.found == nil {
+		c.found = map[string]*Found{}
+	}
+	for _, f := range fs {
+		if _, ok := c.found[f.V.Sig]; ok {
+			continue
+		}
+		nf := &Found{Sig: f.V.Sig, Kind: f.V.Kind, Detail: f.V.Detail, Scenario: f.Scenario, Schedule: toInts(f.Schedule), ExpectN: toInts(f.ExpectN), Preempt: f.Preemptions, Outcome: f.Outcome, Count: f.Count}
+		c.found[nf.Sig] = nf
+		c.P.Found = append(c.P.Found, nf)
+	}
+}
+
 // ReplaySchedule re-executes a recorded schedule of sc twice and reports the
 // violations observed (used by replay mode).
 func ReplaySchedule(sc vrt.Scenario, rf *ReplayFile) []vrt.Violation {
